@@ -243,12 +243,16 @@ impl CompilerSession {
         &mut self, path: impl AsRef<Path>, text: String,
     ) -> Result<(), SourceLoadError> {
         let canonical = Self::path_identity(path.as_ref())?;
-        let input = self.files.get(&canonical).map(|entry| *entry).unwrap_or_else(|| {
-            let disk_text = std::fs::read_to_string(&canonical).ok();
-            let input = SourceInput::new(self, canonical.clone(), disk_text, None);
-            self.files.insert(canonical, input);
-            input
-        });
+        // One lookup-or-insert: a snapshot analysing an importer may register the same file at
+        // this very moment, and replacing its input would leave that analysis (and every later
+        // one of that root) reading an input nobody edits.
+        let input = match self.files.entry(canonical.clone()) {
+            | Entry::Occupied(entry) => *entry.get(),
+            | Entry::Vacant(entry) => {
+                let disk_text = std::fs::read_to_string(&canonical).ok();
+                *entry.insert(SourceInput::new(self, canonical, disk_text, None))
+            }
+        };
         if input.overlay(self).as_ref() != Some(&text) {
             input.set_overlay(self).to(Some(text));
         }
